@@ -290,6 +290,48 @@ from mc import build as B
 from mc import ev as E
 from pykdebugparser.pykdebugparser import PyKdebugParser
 from pykdebugparser.trace_codes import from_trace_codes_file, default_trace_codes
+if os.environ.get('VERIF_HOST_FILES'):
+    # a host on which EVERY absolute path outside the interpreter, the library, the harness and the temp directory exists and is a
+    # readable regular file holding a small code table (a Mac has /usr/share/misc/trace.codes; another host has other files)
+    import builtins, pathlib, stat as _stat
+    ALLOWED = tuple(os.path.realpath(x) for x in (sys.prefix, sys.base_prefix, os.environ.get('VERIF_REPO', '/repo'), '/verif', tempfile.gettempdir(), '/proc', '/dev'))
+    def foreign(path_):
+        try:
+            q = os.fspath(path_)
+        except TypeError:
+            return False
+        if isinstance(q, bytes):
+            q = q.decode('utf-8', 'replace')
+        return os.path.isabs(q) and not os.path.realpath(q).startswith(ALLOWED) and not _real_exists(q)
+    _real_stat, _real_open = os.stat, builtins.open
+    def _real_exists(q):
+        try:
+            _real_stat(q)
+            return True
+        except (OSError, ValueError):
+            return False
+    _file_stat = _real_stat(__import__('mc.ev', fromlist=['x']).__file__)
+    FAKE = '0x40c0050 BSC_name_from_a_host_file\n0x40c0014 BSC_open\n0x3010090 VFS_LOOKUP\n0x1 HOST\n'
+    def fake_stat(path_, *a, **k):
+        return _file_stat if foreign(path_) else _real_stat(path_, *a, **k)
+    def fake_open(file, mode='r', *a, **k):
+        if not isinstance(file, int) and foreign(file):
+            return io.BytesIO(FAKE.encode()) if 'b' in mode else io.StringIO(FAKE)
+        return _real_open(file, mode, *a, **k)
+    os.stat = fake_stat
+    os.path.exists = lambda q: True if foreign(q) else _real_exists(q)
+    os.path.isfile = lambda q: True if foreign(q) else os.path.exists(q) and _stat.S_ISREG(_real_stat(q).st_mode)
+    os.access = lambda q, m, **k: True
+    builtins.open = fake_open
+    io.open = fake_open
+    pathlib.Path.exists = lambda self, **k: os.path.exists(str(self))
+    pathlib.Path.is_file = lambda self, **k: os.path.isfile(str(self))
+    pathlib.Path.open = lambda self, mode='r', *a, **k: fake_open(str(self), mode, *a, **k)
+    pathlib.Path.read_text = lambda self, *a, **k: fake_open(str(self), 'r').read()
+    # the model is in force: a file no host of this sandbox has is there, readable, and parses as a code table
+    assert os.path.isfile('/usr/share/misc/trace.codes') and pathlib.Path('/usr/share/misc/trace.codes').is_file()
+    assert from_trace_codes_file('/usr/share/misc/trace.codes').get(0x40c0050) == 'BSC_name_from_a_host_file'
+    assert not foreign(os.path.join(os.path.dirname(from_trace_codes_file.__code__.co_filename), 'trace.codes'))
 out = {}
 path = '/caf\u00e9/\u20ac/na\u00efve.txt'
 recs = [B.rec(1, (1, 0, 0, 0), 1, E.n2i('BSC_open') | 1)]
@@ -317,6 +359,10 @@ except Exception as ex:
 os.unlink(p); os.rmdir(d)
 try:
     out['bundled'] = len(default_trace_codes())
+    out['bundled-table'] = sorted(default_trace_codes().items())[::97]
+    f = PyKdebugParser()
+    f.color = False
+    out['listing-with-the-bundled-table'] = list(f.formatted_traces(io.BytesIO(blob))) + list(PyKdebugParser().formatted_kevents(io.BytesIO(blob)))
 except Exception as ex:
     out['bundled'] = 'RAISED ' + type(ex).__name__
 print(json.dumps(out))
@@ -424,7 +470,8 @@ def judge_host_locale():
     import subprocess
     import sys
     envs = {'utf8-locale': {'LC_ALL': 'C.UTF-8'}, 'c-locale-no-coercion': {'LC_ALL': 'C', 'PYTHONUTF8': '0', 'PYTHONCOERCECLOCALE': '0'},
-            'posix-utf8-mode': {'LC_ALL': 'POSIX', 'PYTHONUTF8': '1'}}
+            'posix-utf8-mode': {'LC_ALL': 'POSIX', 'PYTHONUTF8': '1'},
+            'utf8-locale+every-other-absolute-path-is-a-readable-file': {'LC_ALL': 'C.UTF-8', 'VERIF_HOST_FILES': '1'}}
     seen = {}
     for label, extra in envs.items():
         env = {k: v for k, v in os.environ.items() if k not in ('LC_ALL', 'LANG', 'LC_CTYPE', 'PYTHONUTF8', 'PYTHONCOERCECLOCALE', 'PYTHONIOENCODING')}
@@ -437,7 +484,7 @@ def judge_host_locale():
     for label, got in seen.items():
         for k in ref:
             if got[k] != ref[k]:
-                return [('host-dependent-output:locale-of-the-host@' + k, {'locale': label, 'got': repr(got[k])[:200], 'under_utf8_locale': repr(ref[k])[:200]})]
+                return [('host-dependent-output:' + ('files-of-the-host' if 'path' in label else 'locale-of-the-host') + '@' + k, {'locale': label, 'got': repr(got[k])[:200], 'under_utf8_locale': repr(ref[k])[:200]})]
     return []
 
 
@@ -449,7 +496,7 @@ class C18(Check):
             'restored after each case. Inputs: every BSD decoder x END error word 0..255 and 9999; every BSD decoder x every numeric START position x value 0..64 (a word that a new code path looks up in a host table shows here); sigaction x signal 0..40; '
             'socket/socketpair/socket_delegate x family 0..45 x type 0..7; get/setsockopt x level {0,1,6,0xffff} x every declared '
             'SO_ option + 2 undeclared. Oracle: the rendered text (or the exception type) is identical under every configuration. '
-            'Plus the log / trace / event lines of one version-3 dump (log records near midnight) with the timezone option unset and set, under the host time zones UTC, EST5EDT, NZST-12NZDT, IST-5:30: identical. Plus every BSD decoder with words 2^31, 2^32+5, 2^63, 2^64-1 in each numeric START position and in the END return word, in two child interpreters, one of which has ctypes.c_long / c_ulong replaced by the 32-bit types before the library is imported (an LLP64 host), one whose struct module reads formats without an explicit byte order as big-endian (a big-endian host), two more under other string-hash seeds (PYTHONHASHSEED): identical. Plus child interpreters started under three host locale settings (UTF-8 locale; C locale without coercion, i.e. ASCII file-system and default text encoding; POSIX with UTF-8 mode) formatting one dump with non-ASCII path / thread name / global string / process name and loading one UTF-8 code-table file: identical. Plus a static scan of every import in pykdebugparser/** against the list of host-dependent stdlib modules: anything '
+            'Plus the log / trace / event lines of one version-3 dump (log records near midnight) with the timezone option unset and set, under the host time zones UTC, EST5EDT, NZST-12NZDT, IST-5:30: identical. Plus every BSD decoder with words 2^31, 2^32+5, 2^63, 2^64-1 in each numeric START position and in the END return word, in two child interpreters, one of which has ctypes.c_long / c_ulong replaced by the 32-bit types before the library is imported (an LLP64 host), one whose struct module reads formats without an explicit byte order as big-endian (a big-endian host), two more under other string-hash seeds (PYTHONHASHSEED): identical. Plus a child interpreter in which every absolute path outside the interpreter / library / harness / temp directory exists and is a readable code table (files of the host). Plus child interpreters started under three host locale settings (UTF-8 locale; C locale without coercion, i.e. ASCII file-system and default text encoding; POSIX with UTF-8 mode) formatting one dump with non-ASCII path / thread name / global string / process name and loading one UTF-8 code-table file: identical. Plus a static scan of every import in pykdebugparser/** against the list of host-dependent stdlib modules: anything '
             'beyond the three modelled seams is a violation. states = configurations; transitions = renders; non-trivial = input '
             'whose rendering shows a host-table name under at least one configuration.')
     assumptions = ('the host is modelled by the interpreter tables the code imports today plus the import scan; a dependency through '
